@@ -510,6 +510,27 @@ fn build_other(kind: &str, rng: &mut Rng, sim: &mut Sim, ck: &mut Checker, v6: b
             }
             ck.sample_contacts = true;
         }
+        // C15 on a socket whose `send_to` completes 20 ms after it handed the datagram over, on a network that
+        // answers within 1..8 ms: the answer is back before the sending task resumes (round-4 seed C15: the
+        // exchange was registered only after the send had returned). Task interleavings of this kind are not
+        // modelled: no lockstep for these cases, the [C15]/[C05] oracles decide
+        "slowsend" => {
+            let n = rng.range(1, 6) as usize;
+            for i in 0..n {
+                sim.peers.push(SimPeer { id: rng.bytes(20), addr: sim_addr(v6, i, 6881), policy: Policy::Good, store: HashMap::new(), token: vec![b't', i as u8], last_answer: None });
+            }
+            let me = rng.bytes(20);
+            let a = real_addr(v6, 0);
+            sim.reals.push((0, me.clone(), a));
+            let nodes: Vec<String> = sim.peers.iter().map(|p| addr_str(&p.addr)).collect();
+            sim.lat_ms = (1, 8);
+            sim.end = t0 + 700 * S;
+            sim.schedule(t0, format!("nnew 0 {} addr={} ro=0 port=none routers=- nodes={} slow=20", hex(&me), addr_str(&a), dash(&nodes)));
+            sim.schedule(t0, "api 0 bootstrapped".into());
+            sim.schedule(t0 + 3 * S, "api 0 bootstrapped".into());
+            sim.schedule(t0 + 30 * S, "api 0 state".into());
+            sim.schedule(sim.end, "api 0 state".into());
+        }
         // C11, crowded table: 30..40 always-answering contacts, at most 7 per bucket, of which 12 keep
         // themselves good by querying the node every few minutes (so no periodic re-bootstrap helps
         // the refresh); the others turn questionable almost together 15 minutes after the bootstrap
@@ -769,7 +790,9 @@ impl Checker {
                 _ => {}
             }
             // C15: the node answers its API whatever its contacts do
-            if matches!(w[2], "state" | "contacts" | "addr") {
+            // (on a slow socket the handler may be inside a `send_to` for some milliseconds: the answer then comes
+            // with a later op)
+            if matches!(w[2], "state" | "contacts" | "addr") && self.kind != "slowsend" {
                 let tag = format!("X {}", w[2]);
                 let answered = world.last.iter().any(|e| e.node == k && e.text.starts_with(&tag) && !e.text.ends_with("dead"));
                 if !answered {
